@@ -52,7 +52,7 @@ RULE = ('call-expansion clause: a design = a top component with 0-2 children (tw
         'order), 1-5 update / update_ff blocks calling 0-3 helpers, one helper shared by 2-4 blocks in most designs; helpers reached '
         'from one block may write (whole signals or slices; <<= under update_ff), shared helpers read only (one writer per bit); '
         'variants: call cycle reachable from a block, call cycle among unreached helpers, helper written by several blocks '
-        '(MultiWriterError after the expansion; metadata still compared). non-trivial = some block reaches a helper through another helper or shares one')
+        '(MultiWriterError after the expansion; metadata still compared), slices written with <<= by helpers of update_ff blocks. non-trivial = some block reaches a helper through another helper or shares one')
 
 _uid = itertools.count()
 NAMES = ['fx', 'fy', 'fz', 'fw', 'fa', 'fb', 'fq', 'fh']
@@ -71,7 +71,8 @@ class Fn:
 
 def gen_component(rng, cname, variant, with_cnt):
   """one component class; variant: 'dag' | 'cyc' (cycle reachable from a block) | 'cyc-unreached' | 'multi' (a writing
-  helper shared by two comb blocks)"""
+  helper shared by two comb blocks) | 'ffslice' (helpers of update_ff blocks write slices with <<=: the top-level signal is
+  marked; elaborated and given to GenDAGPass, not simulated)"""
   F = rng.choice([1, 2, 2, 3, 3, 4, 4, 5, 6]); B = rng.choice([1, 2, 2, 3, 3, 4, 5])
   if variant == 'cyc-unreached': F = max(F, 3)
   if variant == 'multi': B = max(B, 2)
@@ -79,7 +80,7 @@ def gen_component(rng, cname, variant, with_cnt):
   helpers = {n: Fn(n, 'func') for n in hn}
   blocks = {}
   for i in range(B):
-    blocks[f'up{i}'] = Fn(f'up{i}', 'update_ff' if rng.random() < 0.3 else 'update')
+    blocks[f'up{i}'] = Fn(f'up{i}', 'update_ff' if rng.random() < 0.3 or (variant == 'ffslice' and i == 0) else 'update')
   # call graph among the helpers
   free = hn[-2:] if variant == 'cyc-unreached' else []       # kept away from every block
   shape = rng.choice(['rand', 'rand', 'chain', 'diamond', 'dense'])
@@ -150,7 +151,7 @@ def gen_component(rng, cname, variant, with_cnt):
     for n in hn:
       if owners[n] == [b]:
         helpers[n].op = b.op
-        if rng.random() < 0.6: mine.append(wr(helpers[n], not isff))
+        if rng.random() < 0.6 or variant == 'ffslice': mine.append(wr(helpers[n], not isff or variant == 'ffslice'))
     group[b.name] = mine
     (ffw if isff else written).extend(mine)
   allsig = list(range(nsig))
@@ -223,7 +224,7 @@ CNT_SRC = '''class CGCnt( Component ):
 
 def gen_design(rng, uid):
   r = rng.random()
-  variant = 'dag' if r < 0.68 else 'cyc' if r < 0.84 else 'cyc-unreached' if r < 0.93 else 'multi'
+  variant = 'dag' if r < 0.64 else 'cyc' if r < 0.80 else 'cyc-unreached' if r < 0.89 else 'multi' if r < 0.95 else 'ffslice'
   with_cnt = rng.random() < 0.25
   nk = rng.choice([0, 0, 1, 2, 2])
   dup = nk == 2 and rng.random() < 0.5                          # two instances of one class (per-class cache of the names)
@@ -593,7 +594,28 @@ class CGC_Top( Component ):
       s.w2 @= %s
 '''
 
+FFS_SRC = '''from pymtl3 import *
+
+class CGF_Top( Component ):
+  def construct( s ):
+    s.w0 = Wire( Bits8 ); s.w1 = Wire( Bits8 ); s.w2 = Wire( Bits8 ); s.w3 = Wire( Bits8 )
+    @s.func
+    def lo():
+      s.w1[0:4] <<= s.w0[0:4]
+      hi()
+    @s.func
+    def hi():
+      s.w2[4:8] <<= s.w0[4:8]
+    @update_ff
+    def up0():
+      lo()
+    @update
+    def up1():
+      s.w3 @= s.w1 + s.w2
+'''
+
 DIRECTED = [
+  (FFS_SRC, 'CGF_Top', 'ffslice'),                      # slices written through helpers of an update_ff block
   (CYC_SRC % 'fx()', 'CGC_Top', 'cyc'),                 # up1 -> fx -> fy <-> fz: rejected
   (CYC_SRC % 's.w1 + 1', 'CGC_Top', 'cyc-unreached'),   # the same cycle, reached by no block: accepted
   # the diamond of the code's comment, the helper shared by three blocks defined around it, a child with the same shape twice
@@ -654,7 +676,7 @@ def run(ck):
   # the other streams of C02 do not move (ck.count may still draw from ck.rng for the evidence samples)
   import random
   rng = random.Random(f'{ck.seed}:{getattr(ck, "pid", "C02")}:callgraph:{ck.tier}')
-  n = 300 if ck.tier == 'quick' else 6000
+  n = 240 if ck.tier == 'quick' else 3000
   designs = list(DIRECTED)
   for _ in range(n):
     src, name, variant = gen_design(rng, next(_uid))
